@@ -152,6 +152,47 @@ def compile_order(vd, drv, wd):
     return len(progs)
 
 
+CORPUS_Q = ["entry [offset, label, [attribute [label, form, [value]]]]", "entry ?root [child offset]", "entry [offset, [parent offset]]",
+            "entry [offset, [@AT_const_value], [@AT_type offset], [@AT_name]]", "entry ?(@AT_location) [offset, [@AT_location [elem [label, [value]]]]]",
+            "[abbrev entry [code, label, [attribute [label, form]]]]", "[symbol [name, value, size, label]]", "unit [offset, [root offset]]",
+            "entry (|D| [D offset, [D ?root 1], [D ?haschildren 1], [D name]])", "raw entry [offset, [attribute label]]",
+            "entry ?TAG_enumerator [offset, [value]]", "[entry ?root] length"]
+
+
+def input_order(vd, drv, wd, rng, tier):
+    """What a process learnt from one input must not show in what it says about another: every (file, query)
+    of the corpus in one process in one order, in a second process in the opposite order, and a sample alone."""
+    tests = os.path.join(common.REPO, "tests")
+    files = []
+    for f in sorted(os.listdir(tests)):
+        fp = os.path.join(tests, f)
+        try:
+            if os.path.isfile(fp) and open(fp, "rb").read(4) == b"\x7fELF":
+                files.append(fp)
+        except OSError:
+            pass
+    pairs = [(f, q) for f in files for q in CORPUS_Q]
+    def batch(order, tag):
+        cmds = ["\t".join(["run", str(i), "max=400,t=60", zw.hexq(pairs[i][1]), pairs[i][0]]) for i in order]
+        return {r.get("id"): r for r in zw.run_driver(drv, cmds, wd, tag=tag)}
+    fwd = batch(list(range(len(pairs))), "corpus-fwd")
+    rev = batch(list(reversed(range(len(pairs)))), "corpus-rev")
+    alone_ids = rng.sample(range(len(pairs)), 40 if tier == "quick" else 400)
+    alone = {}
+    for i in alone_ids:
+        alone.update(batch([i], "corpus-alone"))
+    def sig(r):
+        return json.dumps({k: (r or {}).get(k) for k in ("status", "results", "err")}, sort_keys=True)
+    for i, (f, q) in enumerate(pairs):
+        vd.cov["evaluations"] += 1
+        a, b = fwd.get(str(i)), rev.get(str(i))
+        ref = alone.get(str(i))
+        if sig(a) != sig(b) or (ref is not None and sig(ref) != sig(a)):
+            vd.observe("input order: `%s' on %s depends on what the process read before" % (q, os.path.basename(f)),
+                       {"after_earlier_files": a, "after_later_files": b, "alone": ref})
+    return len(pairs)
+
+
 def run(tier):
     vd = common.Verdict(PID, tier)
     wd = common.scratch(PID)
@@ -159,6 +200,7 @@ def run(tier):
     rng = random.Random(common.seed())
     ncache = cache_histories(vd, os.path.join(bdir, "bin", "zwdrv"), wd, tier, rng)
     norder = compile_order(vd, os.path.join(bdir, "bin", "zwdrv"), wd)
+    ncorpus = input_order(vd, os.path.join(bdir, "bin", "zwdrv"), wd, rng, tier)
     # 1. the design: private state per result set, shared immutable op graph
     for body in range(1, 8):
         r = tlc.run_tlc("Api", constants={"PinnedMerge": False, "NSlots": 2 if tier == "quick" else 3,
@@ -268,8 +310,10 @@ def run(tier):
                      "the caches a Dwarf value carries (root list, per-unit parent tables) are model-checked in tla/Cache.tla "
                      "and every history of ?root/parent questions from tla/CacheGen.tla (plus random longer ones) over a "
                      "generated 3-unit file is asked through one compiled query on one shared Dwarf value; every program is also "
-                     "compiled in two opposite orders within one process and must mean what it means in a fresh process"
-                     % (len(PROGRAMS), len(DW_PROGRAMS)), extra={"schedules": len(scheds), "cache_histories": ncache, "compile_order_programs": norder})
+                     "compiled in two opposite orders within one process and must mean what it means in a fresh process; "
+                     "a corpus of 12 DWARF/ELF queries over every ELF file under tests/ is answered in two opposite file orders "
+                     "within one process (and a sample alone): no answer may depend on what was read before"
+                     % (len(PROGRAMS), len(DW_PROGRAMS)), extra={"schedules": len(scheds), "cache_histories": ncache, "compile_order_programs": norder, "input_order_pairs": ncorpus})
 
 def replay(path):
     print(open(path).read())
